@@ -9,7 +9,7 @@ PROPS = {
         extra_tests=[{"test": "TestC04Keeper", "dir": "C04K", "n_quick": 300, "n_thorough": 2500}],
         n_quick=3000, n_thorough=40000, thorough_seeds=8,
         # ops whose model output is exactly what the property demands
-        spec_ops=["median", "evidence", "gas", "addev"],
+        spec_ops=["median", "evidence", "gas", "addev", "enc", "evp"],
         rule="per case: random snapshot (1-7 validators; tiny/equal/random/huge shares, optionally scaled by up to 9*2^199 so exact-2/3 boundaries survive), "
              "partition of validators over 1-3 evidence values with abstainers and outsiders, gas-estimate multisets over the full uint64 range incl. edge values, "
              "AddEvidence re-submission histories; distinct = distinct canonical input text; non-trivial = at least one submission",
@@ -164,7 +164,7 @@ PROPS = {
         lean_modules=["PalomaModel.Props.C05", "PalomaModel.Props.SignSource"], gen=["SignBytes.lean"],
         harness_test="TestC05",
         n_quick=300, n_thorough=3000, thorough_seeds=6, timeout_quick=900,
-        spec_ops=[],
+        spec_ops=["bdep"],
         rule="random evm Message values of every action type and random skyway batches: the real Keccak256WithSignedMessage / GetCheckpoint digest vs the Lean Keccak-256 of the model's pre-image (ABI encoder model, proved injective); "
              "single- and multi-field mutation sweep on the real functions (every delivered field must change the bytes); queue ids on a 3-chain full app (put / replace / remove across queues); distinct = distinct op text; all cases non-trivial",
         trusted_base=["Keccak-256 collision freeness is a pointwise hypothesis (NoColl) of the binding theorems; the executable Lean Keccak is validated by test vectors and the correspondence",
